@@ -530,10 +530,17 @@ def main():
     print('%d mutants, %d detected, %d not' % (len(results),
                                                len(results) - len(missed),
                                                len(missed)))
-    with open(os.path.join(HERE, 'mutants', 'last_run.json'), 'w') as f:
-        json.dump([{'mutant': r[0], 'property': r[1], 'status': r[2],
-                    'seconds': round(r[3], 1), 'info': r[4]} for r in results],
-                  f, indent=1)
+    path = os.path.join(HERE, 'mutants', 'last_run.json')
+    try:
+        prev = {e['mutant']: e for e in json.load(open(path))}
+    except Exception:
+        prev = {}
+    for r in results:
+        prev[r[0]] = {'mutant': r[0], 'property': r[1], 'status': r[2],
+                      'seconds': round(r[3], 1), 'info': r[4]}
+    known = set(m[0] for m in MUTANTS)
+    with open(path, 'w') as f:
+        json.dump([prev[k] for k in sorted(prev) if k in known], f, indent=1)
     return 1 if missed else 0
 
 
